@@ -802,3 +802,38 @@ def baseline_count(path, unit, prop):
         if len(parts) == 3 and parts[0] == unit and parts[1] == prop:
             return int(parts[2])
     return None
+
+
+# ---------------------------------------------------------------------------
+# census of accesses to the mutex-protected cells: every `.field.lock(` / `.field.try_lock(` in the
+# non-test code of /repo/src must lie inside a function that is under contract; an access elsewhere is
+# a reader/writer the contracts do not see (the properties that rest on that cell become undecided)
+CELL_FIELDS = {
+    'state': ['C01', 'C08'], 'last_value': ['C16'], 'dispatch_tx': ['C02', 'C04', 'C05', 'C06'], 'pool': ['C04', 'C11', 'C15'],
+    'subscribers': ['C03', 'C09', 'C14'], 'reducers': ['C01', 'C07', 'C17'], 'middlewares': ['C07', 'C12', 'C17'],
+    'tx': ['C10', 'C09'], 'handle': ['C10', 'C09'],
+}
+
+
+def cell_census(gen, repo_src):
+    """returns list of (file, line, field, props) for accesses outside the functions under contract"""
+    spans = {}
+    for f in gen.fns:
+        fl, a, b = f.src_span
+        spans.setdefault(fl, []).append((a, b))
+    for (key, props, reason) in gen.lost:
+        pass
+    out = []
+    for fn_ in sorted(os.listdir(repo_src)):
+        if not fn_.endswith('.rs'):
+            continue
+        text = open(os.path.join(repo_src, fn_), encoding='utf-8').read()
+        cut = text.find('#[cfg(test)]')
+        body = text if cut < 0 else text[:cut]
+        mask = code_mask(body)
+        for field, props in CELL_FIELDS.items():
+            for m in find_code(body, mask, r'\.' + field + r'\s*\.\s*(?:lock|try_lock|get_mut|into_inner)\s*\('):
+                ln = line_of(body, m.start())
+                if not any(a <= ln <= b for (a, b) in spans.get(fn_, [])):
+                    out.append((fn_, ln, field, props))
+    return out
